@@ -36,6 +36,7 @@ def run(ctx):
     r133(ctx, m)
     r134(ctx, m)
     r135(ctx)
+    r138(ctx)
     # row-level filtering runs on the row groups that survive pruning: the pruning rules are shared with C05
     from . import c05
     api = ctx.repo['api']
@@ -323,3 +324,20 @@ def r135(ctx):
                     'a page without selected rows writes nothing, so the output position must not move: %s' % (
                         [norm(e[4]) for e in outs]), m.loc(blk))
     ctx.floor('R13.5', 'cursor paths', checked, 2)
+
+
+def r138(ctx, rule='R13.8'):
+    """core.read_col, v1 page loop: the output cursor advances by the rows this page contributed to the output - the
+    length of the (already mask-reduced) level or value array - never by a count from the page header, which counts
+    the unselected rows too"""
+    core = ctx.repo['core']
+    f = core.func('read_col')
+    augs = [st for st in iter_child_stmts(f.body) if isinstance(st, ast.AugAssign) and norm(st.target) == 'num' and isinstance(st.op, ast.Add)]
+    plain = [a for a in augs if 'read_data_page_v2' not in norm(a.value)]
+    ctx.ob(rule, 'core.read_col:one-cursor-advance-for-v1-pages', len(plain) == 1, str([norm(a) for a in augs]), core.loc(f))
+    for a in plain:
+        v = a.value
+        ok = isinstance(v, ast.IfExp) and norm(v.test) == 'defi is not None' and norm(v.body) == 'len(defi)' and norm(v.orelse) == 'len(val)'
+        hdr = any(isinstance(x, ast.Attribute) and x.attr in ('num_values', 'num_rows') for x in ast.walk(v))
+        ctx.ob(rule, 'core.read_col:cursor-advances-by-the-rows-written', ok and not hdr,
+               '`%s`' % norm(a), core.loc(a))
